@@ -26,7 +26,8 @@ try:
         for l in lines: print("   ", l[:300])
         if r.returncode not in (0, 1): print(r.stdout[-1500:], r.stderr[-1500:])
 finally:
-    subprocess.run("git -C /repo checkout -- . ", shell=True)
+    # undo: tracked files back to HEAD, and files the patch ADDED removed again (only under the source directories; _build is left alone)
+    subprocess.run("git -C /repo checkout -- . && git -C /repo clean -fdq -- src tools tests qtlogger.h", shell=True)
 rf = "/verif/seeded/RESULTS.json"
 allr = json.load(open(rf)) if os.path.exists(rf) else {}
 allr.setdefault(sid, {}).update(res)
